@@ -178,6 +178,7 @@ Definition step (st : rstate) (op : list tok) : rstate * list tok :=
       | _ => (st, [TS "badop"])
       end
     else if name =s "framing" then (st, [])
+    else if name =s "limits" then (st, [])
     else if name =s "replay" then
       let '(s', n) := replay (fp_of st) (names_of st) (hc_of st) steps_of
                              (generate_requests (cur st)) empty_state in
